@@ -3,8 +3,8 @@ package main
 import (
 	"bytes"
 
-	ics23 "github.com/cosmos/ics23/go"
 	"github.com/cosmos/iavl"
+	ics23 "github.com/cosmos/ics23/go"
 )
 
 // execProof is the C03 oracle on the real library and the real ICS-23 verifier.
